@@ -44,6 +44,14 @@ def _build_pool() -> list[tuple[str, object, str]]:
         pool.append((f"bms_{tag}", BreakupMomentumSquared(sym, m1, m2), "str:bms"))
         pool.append((f"psf_{tag}", PhaseSpaceFactor(sym, m1, m2), "str:psf"))
         pool.append((f"ff2_{tag}", FormFactor(sym, m1, m2, 2, d), "str:ff2"))
+    # assumption names of equal length: the two pickles have the same size, so a new entry that is
+    # written over an old one *in place* and torn can still unpickle cleanly
+    # (masses that are known to be non-negative make the two unfoldings differ in form, not only in s)
+    mass1, mass2 = sp.symbols("m1 m2", nonnegative=True)
+    for tag in ("positive", "negative"):
+        sym = sp.Symbol("s", **{tag: True})
+        pool.append((f"psf_{tag}", PhaseSpaceFactor(sym, mass1, mass2), "str:psf"))
+        pool.append((f"bms_{tag}", BreakupMomentumSquared(sym, mass1, mass2), "str:bms"))
     pool.append(("ff_symbolic_L", FormFactor(s, m1, m2, L, d), ""))
     pool.append(("pow-1", BreakupMomentumSquared(s, m1, m2) ** -1, "hash:pow"))
     pool.append(("pow-2", BreakupMomentumSquared(s, m1, m2) ** -2, "hash:pow"))
